@@ -2007,11 +2007,13 @@ impl ArchiveBuilder {
                 (100 * (processed_data.len() - compressed.len()) / processed_data.len())
             );
 
-            // Prepend compression type byte
-            let mut compressed_with_type = Vec::with_capacity(1 + compressed.len());
-            compressed_with_type.push(self.table_compression);
-            compressed_with_type.extend_from_slice(&compressed);
-            processed_data = compressed_with_type;
+            // compress() already returns either the method byte followed by the payload (when that
+            // is shorter than the input) or the input itself. The reader takes a table as
+            // compressed exactly when it is stored shorter than its declared size, so a table
+            // that did not shrink stays raw and nothing is prepended here.
+            if compressed.len() < processed_data.len() {
+                processed_data = compressed;
+            }
         }
 
         // Encrypt the data portion (after extended header)
@@ -2254,11 +2256,13 @@ impl ArchiveBuilder {
                 (100 * (processed_data.len() - compressed.len()) / processed_data.len())
             );
 
-            // Prepend compression type byte
-            let mut compressed_with_type = Vec::with_capacity(1 + compressed.len());
-            compressed_with_type.push(self.table_compression);
-            compressed_with_type.extend_from_slice(&compressed);
-            processed_data = compressed_with_type;
+            // compress() already returns either the method byte followed by the payload (when that
+            // is shorter than the input) or the input itself. The reader takes a table as
+            // compressed exactly when it is stored shorter than its declared size, so a table
+            // that did not shrink stays raw and nothing is prepended here.
+            if compressed.len() < processed_data.len() {
+                processed_data = compressed;
+            }
         }
 
         // Encrypt the data portion (after extended header)
